@@ -436,4 +436,10 @@ theorem facts_first_chunk_unconditional :
     Generated.H2Relay.firstChunkUnconditional = true ∧ Generated.H2Relay.headersFrameWrittenUnconditionally = true := by
   decide
 
+/-- No framer of the proxy is given a read limit below the legal maximum (`http2.NewFramer`'s
+default, 2^24-1): each endpoint's SETTINGS_MAX_FRAME_SIZE is forwarded unchanged, so frames up to
+that size are legal input (`Frame` puts no bound on fragments; end to end: `e2e-bigframe`). -/
+theorem facts_framers_accept_advertised_frame_sizes :
+    Generated.H2Relay.framersAcceptAdvertisedFrameSizes = true := by decide
+
 end Martian.Props.C08
